@@ -56,11 +56,11 @@ FAULT_PROBES = {"runner_killed": "runner_killed", "output_file_torn": "output_to
                 "runners_overlapped": "runners_overlapped"}
 # a small share of the runs is repeated by fresh interpreters started with `python -O` (assert statements stripped)
 INTERP_VARIANTS = [{"flags": ["-O"], "runs": {"quick": 160, "thorough": 3000}, "what": "python -O (assert statements stripped from the code under test)"}]
-PROBES = ["job_without_return_files", "hash_comparison_switched_off_by_caller", "cache_hit_valid", "cache_other_tag", "cache_failed_rc", "cache_success_flag_but_missing_file", "cache_unreadable", "destination_only_key",
+PROBES = ["program_cannot_be_started", "job_without_return_files", "hash_comparison_switched_off_by_caller", "cache_hit_valid", "cache_other_tag", "cache_failed_rc", "cache_success_flag_but_missing_file", "cache_unreadable", "destination_only_key",
           "item_already_in_destination", "vectorised_partly_cached", "runner_killed", "output_torn", "interrupt_prepare", "interrupt_submit",
           "interrupt_wait", "interrupt_finalise", "tag_changed_between_calls", "fail_after_writing_return_file", "closing_call_completed", "idempotent_call_checked", "runners_overlapped", "driver_with_envars"]
 
-OUTCOMES = ["ok", "ok", "ok", "ok", "rc1", "rc2", "sig", "nofile", "fail_with_file", "sig_with_file"]
+OUTCOMES = ["ok", "ok", "ok", "ok", "rc1", "rc2", "sig", "nofile", "fail_with_file", "sig_with_file", "nostart"]
 
 
 def budget(tier):
@@ -356,6 +356,9 @@ def run_plan(plan, trace=False):
                     return {"rc": 2}
                 if o == "sig":
                     return {"rc": -11}
+                if o == "nostart":
+                    # the external program cannot be started at all (not installed on this node)
+                    return {"raise": FileNotFoundError(2, "No such file or directory", argv[0])}
                 if o == "nofile" and nofiles:
                     return {"rc": 0, "out": content.decode() + "\n"}
                 if o == "nofile":
@@ -451,6 +454,11 @@ def run_plan(plan, trace=False):
                 if flt and flt["kind"] == "torn_out":
                     res.stats["probe:output_torn"] += 1
                     cache[e] = "unreadable"
+                    continue
+                if o == "nostart":
+                    # a runner may die with a traceback (no output file) or still write a report - which must then be a failure
+                    res.stats["probe:program_cannot_be_started"] += 1
+                    cache[e] = {"tag": tg, "success": False, "rc": 1, "content": None} if os.path.isfile(os.path.join(outdir, e + ".out")) else None
                     continue
                 rc = {"ok": 0, "rc1": 1, "rc2": 2, "sig": -11, "nofile": 0, "fail_with_file": 1, "sig_with_file": -9}[o]
                 has_file = o in ("ok", "fail_with_file", "sig_with_file") or (nofiles and o == "nofile")
